@@ -183,6 +183,9 @@ def checks_for(c, o):
         d, a = bc(c["par"]["drift"], n), bc(c["par"]["amp"], n)
         out.append(("gmp1", "chk_gmp1 %s %s %s %s %s" % (ql(d), ql(a), ql(c["xi"]), q(c["x0"]), ql(res))))
         out.append(("gmp1-rows", "chk_gmp1_rows %s %s %s" % (ql(d), ql(a), qll(A))))
+        if np.ndim(c["par"]["drift"]) == 0:
+            # scalar drift: the implementation takes the `else drift` branch; model gmp1_cd mirrors it
+            out.append(("gmp1-const-drift", "chk_gmp1_cd %s %s %s %s %s" % (q(float(c["par"]["drift"])), ql(a), ql(c["xi"]), q(c["x0"]), ql(res))))
     elif kind == "ou":
         tol = q(TOL * scale_of(res, A))
         out.append(("ou", "chk_ou %s %s %s %s %s %s %s" % (tol, ql(c["xi"]), q(c["x0"]), ql(w["sigma"]), ql(w["e"]), ql(w["q"]), ql(res))))
